@@ -3,6 +3,8 @@
 (*   Reset                                                                                          *)
 (*   Config type role cfg r0   a long-lived image of that type is created for that role             *)
 (*   Set j v r                 setter j called with abstract value v on the long-lived image        *)
+(*                             (j = pe / px: no call; the client rewrote the palettes / the pixel    *)
+(*                             buffer the image refers to, in place, to contents class v)            *)
 (*   Render key before l* f*   the long-lived image (l) and a freshly created replica (f) given     *)
 (*                             the wanted properties `key` and the same pixels were each used in    *)
 (*                             the same composite: fl/efc = flags and extended format code the      *)
@@ -23,7 +25,7 @@ EXTENDS Image, TraceIO
 
 VARIABLES P, cfg, seen, pending, l
 
-PropOrder == <<"t", "f", "r", "c", "sc", "cc", "am", "ao", "ca", "acc", "pal", "d", "dof", "ma">>
+PropOrder == <<"t", "f", "r", "c", "sc", "cc", "am", "ao", "ca", "acc", "pal", "d", "dof", "ma", "pe", "px">>
 AsTuple(w) == [n \in 1..Len(PropOrder) |-> w[PropOrder[n]]]
 
 Observation(ev, who) ==
